@@ -6,15 +6,19 @@ implementations under test.
 
 Contents
 --------
-* infrastructure     run_parallel (at most 8 worker processes), SqliteSession (one real data_algebra SQLite
-                     handle per worker process, tables re-loaded per case, every query goes through the real
-                     DBHandle.read_query), OracleDB (a plain sqlite3 connection that never sees data_algebra),
-                     frames (table dict -> pandas / polars frames with explicit schemas), outcome helpers
+* infrastructure     run_parallel (at most 8 worker processes), outcome_raise / materialise (a Polars LazyFrame is
+                     collected; what it raises then is the back end raising), SqliteSession (one real data_algebra
+                     SQLite handle per worker process, tables re-loaded per case -- cross-checked against
+                     DBHandle.insert_table --, SQL text from the real to_sql once per pipeline, every query through the
+                     real DBHandle.read_query), OracleDB (a plain sqlite3 connection that never sees data_algebra)
 * joins (C16)        ref_join (row-list reference join with switches that reproduce KNOWN defects -- used only to
                      name them), native_join_sql (hand-written SQL join text for the sqlite3 oracle)
-* groups (C09)       distinct_keys, ref_group_agg
-* windows (C27/C05)  ref_window (partition, sort by order_by with reversals, compute the function)
-* methods (C05)      DOC_MEANING: reference meaning of every catalogued method
+* groups (C09)       distinct_keys, ref_group_agg, ref_windowed_group, Either / ANY reference cells, table_matches
+* windows (C27/C05)  ref_window_fn / ref_window (partition, sort by order_by with reversals, compute the function)
+* contracts          ContractedBackends: run-time contracts on the real _extend_step / _project_step dispatch
+                     entries of the live Pandas and Polars models and on DBHandle.read_query
+* methods (C05)      doc_meaning(): reference meaning, domain and restriction note of every catalogued method
+* reporting          cap_unclassified
 """
 from __future__ import annotations
 
@@ -987,3 +991,27 @@ def doc_meaning() -> Dict[str, Method]:
             raise ValueError("duplicate doc_meaning entry " + m.key)
         out[m.key] = m
     return out
+
+
+# --------------------------------------------------------------------------------------------------
+# reporting helper
+# --------------------------------------------------------------------------------------------------
+
+
+def cap_unclassified(rep, limit: int = 25) -> None:
+    """Every failing case that no narrow classifier matches has its own key `CNN:unclassified:<hash>` and is
+    therefore a new VIOLATION.  A single defect can produce many thousands of them (one replay file and one output
+    line each), so only the first `limit` (rep.violations must already be sorted, simplest witness first) are kept as
+    Violation objects; the total and the number left out are recorded in rep.extra -- the run still fails."""
+    uncl = [v for v in rep.violations if ":unclassified:" in v.key]
+    if len(uncl) <= limit:
+        if uncl:
+            rep.extra["unclassified_failing_cases"] = len(uncl)
+        return
+    keep = set(id(v) for v in uncl[:limit])
+    rep.violations[:] = [v for v in rep.violations if ":unclassified:" not in v.key or id(v) in keep]
+    rep.extra["unclassified_failing_cases"] = len(uncl)
+    rep.extra["unclassified_failing_cases_not_listed"] = len(uncl) - limit
+    for v in rep.violations:
+        if id(v) in keep:
+            v.what += " [one of %d unclassified failing cases; only the %d simplest are listed]" % (len(uncl), limit)
